@@ -184,9 +184,9 @@ static ACfg cfg_at(uint64_t i) {
 }
 
 // ------------------------------------------------------------------------------------------------ token alphabet
-enum Kind { K_EXTSUB_SYS, K_EXTSUB_PUB, K_GE_USED, K_GE_DECL, K_GE_ATTR, K_PE, K_SCHEMALOC, K_NONS, K_IMPORT, K_INCLUDE, K_REDEFINE, K_SCHEMA_DOCTYPE, NKIND };
+enum Kind { K_EXTSUB_SYS, K_EXTSUB_PUB, K_GE_USED, K_GE_DECL, K_GE_ATTR, K_PE, K_SCHEMALOC, K_NONS, K_IMPORT, K_INCLUDE, K_REDEFINE, K_SCHEMA_DOCTYPE, K_GE_VIA_PE, K_PE_VIA_PE, NKIND };
 static const char* KindName[] = {"extsubset-SYSTEM", "extsubset-PUBLIC", "GE-declared+used", "GE-declared-only", "GE-in-attribute", "PE", "xsi:schemaLocation", "xsi:noNamespaceSchemaLocation",
-                                 "xs:import", "xs:include", "xs:redefine", "schema-with-DOCTYPE"};
+                                 "xs:import", "xs:include", "xs:redefine", "schema-with-DOCTYPE", "GE-declared-through-internal-PE+used", "PE-declared-through-internal-PE"};
 enum IdKind { I_SAMEDIR, I_SUBDIR, I_PARENT, I_FILEURL, I_HTTP, I_NESTED, NIDKIND };
 static const char* IdName[] = {"a.x", "sub/b.x", "../c.x", "file:///v/d.x", "http://h/e.x", "relative-inside-/v/sub/"};
 static const int NTOK = NKIND * NIDKIND;
@@ -315,6 +315,51 @@ static Built build(const std::vector<int>& word, bool urlBase) {
                 subset += "<!ENTITY % k" + p + " SYSTEM \"" + craw + "\">%k" + p + ";";
                 int c = add_ref(pos, C_CONT_PE, craw, "", b.base, -1);
                 b.files[b.refs[c].target] = "<!ENTITY % n" + p + " SYSTEM \"n" + p + ".ent\">%n" + p + ";";
+                int r = add_ref(pos, C_PE, "n" + p + ".ent", "", b.refs[c].abs, c);
+                b.files[b.refs[r].target] = leaf;
+                decoy("n" + p + ".ent", leaf);
+            }
+            break;
+        }
+        case K_GE_VIA_PE: {
+            // the declaration text <!ENTITY g SYSTEM 'id'> is the replacement text of an internal parameter entity; its base URI is that of the
+            // external entity in which the %xp; reference is expanded (document, or - nested - the external subset /v/sub/k.dtd), not of the place of use
+            needDoctype = true;
+            std::string leaf = "<x" + p + "/>";
+            if (!nested) {
+                std::string raw = raw_id(idk, p, "ent");
+                subset += "<!ENTITY % xp" + p + " \"<!ENTITY g" + p + " SYSTEM '" + raw + "'>\">%xp" + p + ";";
+                int r = add_ref(pos, C_GE, raw, "", b.base, -1);
+                b.files[b.refs[r].target] = leaf;
+            } else {
+                std::string craw = "sub/k" + p + ".dtd";
+                int c = add_ref(pos, C_EXTSUB, craw, "", b.base, -1);
+                b.files[b.refs[c].target] = "<!ENTITY % xp" + p + " \"<!ENTITY g" + p + " SYSTEM 'n" + p + ".ent'>\">%xp" + p + ";";
+                int r = add_ref(pos, C_GE, "n" + p + ".ent", "", b.refs[c].abs, c);
+                b.files[b.refs[r].target] = leaf;
+                decoy("n" + p + ".ent", leaf);
+                extid[nExtSub < 2 ? nExtSub : 1] = "SYSTEM \"" + craw + "\"";
+                if (nExtSub >= 1) for (auto& rr : b.refs) if (rr.pos == pos) rr.reachable = false;  // a second DOCTYPE is a fatal error
+                nExtSub++;
+            }
+            content += "&g" + p + ";";
+            break;
+        }
+        case K_PE_VIA_PE: {
+            // <!ENTITY % p SYSTEM 'id'> declared through an internal PE; nested: declared inside the external PE /v/sub/k.ent but *referenced from the
+            // document's internal subset*, so that a resolution against the entity current at the reference would hit the decoy
+            needDoctype = true;
+            std::string leaf = "<!ATTLIST r a" + p + " CDATA #IMPLIED>";
+            if (!nested) {
+                std::string raw = raw_id(idk, p, "ent");
+                subset += "<!ENTITY % xp" + p + " \"<!ENTITY &#37; p" + p + " SYSTEM '" + raw + "'>\">%xp" + p + ";%p" + p + ";";
+                int r = add_ref(pos, C_PE, raw, "", b.base, -1);
+                b.files[b.refs[r].target] = leaf;
+            } else {
+                std::string craw = "sub/k" + p + ".ent";
+                subset += "<!ENTITY % k" + p + " SYSTEM \"" + craw + "\">%k" + p + ";%n" + p + ";";
+                int c = add_ref(pos, C_CONT_PE, craw, "", b.base, -1);
+                b.files[b.refs[c].target] = "<!ENTITY % xp" + p + " \"<!ENTITY &#37; n" + p + " SYSTEM 'n" + p + ".ent'>\">%xp" + p + ";";
                 int r = add_ref(pos, C_PE, "n" + p + ".ent", "", b.refs[c].abs, c);
                 b.files[b.refs[r].target] = leaf;
                 decoy("n" + p + ".ent", leaf);
@@ -743,7 +788,7 @@ int main(int argc, char** argv) {
     if (cfgset == "gating192") { g_nres = 1; g_gating192 = true; }  // scanner x validation x {disableDefaultEntityResolution, loadExternalDTD, loadSchema, doSchema}
     if (cfgset == "gating32") g_gating32 = true;
     if (cfgset == "resolver96") g_resolver96 = true;
-    // --kinds / --ids restrict the alphabet (development aid); default: all 72 tokens
+    // --kinds / --ids restrict the alphabet (development aid); default: all 84 tokens
     for (int t = 0; t < NTOK; t++) {
         if (a.has("kind") && t / NIDKIND != a.num("kind")) continue;
         if (a.has("id") && t % NIDKIND != a.num("id")) continue;
